@@ -95,6 +95,11 @@ def string_index_obligations(repo: Repo, run: Run) -> None:
             run.ob("R10", o["module"], o["scope"], f"log record strings (C16/R12): {o['construct']}", o["ok"],
                    (o.get("what", "") + " - string number 0 of the dump's string index is a string like any other") if not o["ok"] else "",
                    nontrivial=False)
+    for o in probe.obligations:
+        if o["rule"] == "R13":
+            run.ob("R10", o["module"], o["scope"], f"log record decoding (C16/R13): {o['construct']}", o["ok"],
+                   (o.get("what", "") + " - a log record the decoder raises on ends parse_v3: the records behind it are not yielded") if not o["ok"] else "",
+                   nontrivial=False)
     run.floor("R10", "string-index obligations taken over from C16", n, 9)
 
 
